@@ -62,6 +62,7 @@ class MinEngine:
         self.res = RunResult()
         self.cfg = run['cfg']
         self.last = None  # last returned circuit (may be fed back)
+        self.last_real = None
         uuidsrc.source.reset(run_seed, self.cfg.get('uuid_order', 'asc'))
         for i, op in enumerate(run['ops']):
             self.opi = i
@@ -167,7 +168,21 @@ class MinEngine:
             if not net.outputs:
                 return
         try:
-            real = observe.build_real(self.Circuit, self.GT, net)
+            how = weighted_choice(rng, [('build', 5), ('parse-shuffled', 3), ('build+rename', 2)])
+            if feedback and self.last_real is not None and rng.random() < 0.7:
+                # the very object an earlier call returned (its storage order is whatever the splices left behind)
+                real = self.last_real
+                how = 'returned-object'
+            elif how == 'parse-shuffled':
+                real = self.Circuit.from_bench_string(gennet.shuffled_bench(rng, net))
+            else:
+                real = observe.build_real(self.Circuit, self.GT, net)
+                if how == 'build+rename':
+                    inner = [g for g in net.gates if net.gates[g][0] != 'INPUT']
+                    for g in rng.sample(inner, min(len(inner), rng.randint(1, 2))):
+                        real.rename_gate(g, g + '_r')  # re-inserts the gate at the end of the gate table
+            net, _ = observe.snap(real)
+            st.bump(f'argument-built:{how}')
         except Exception:
             return
         armed = self.distinct_functions(net)
@@ -303,8 +318,10 @@ class MinEngine:
         if len(now.gates) > len(now.inputs) and all(t in SUPPORTED or t == 'INPUT' for t, _ in now.gates.values()) \
                 and all(len(ops) == (1 if t == 'NOT' else 2) for t, ops in now.gates.values() if t != 'INPUT'):
             self.last = now
+            self.last_real = result
         else:
             self.last = None
+            self.last_real = None
 
     # ------------------------------------------------------------------ shrinking of the argument circuit
     def shrink_args(self, run, fails, more):
